@@ -167,15 +167,21 @@ class Frame:
         self,
         ctype_or_response: CommandFrame.CommandType | ResponseFrame.ResponseCode,
     ) -> bytes:
-        # TODO: support extended subunit types and ids.
+        # TODO: support extended subunit types.
+        if self.subunit_id < 5 or self.subunit_id == 7:
+            subunit_id = self.subunit_id
+            subunit_id_extension = b''
+        elif self.subunit_id <= 5 + 0xFE:
+            # Extended to the next byte
+            subunit_id = 5
+            subunit_id_extension = bytes([self.subunit_id - 5])
+        else:
+            subunit_id = 5
+            subunit_id_extension = bytes([0xFF, self.subunit_id - 5 - 254])
         return (
-            bytes(
-                [
-                    ctype_or_response,
-                    self.subunit_type << 3 | self.subunit_id,
-                    self.opcode,
-                ]
-            )
+            bytes([ctype_or_response, self.subunit_type << 3 | subunit_id])
+            + subunit_id_extension
+            + bytes([self.opcode])
             + self.operands
         )
 
